@@ -1128,6 +1128,13 @@ def plan_threads(focus, seed, tier):
                     spec["frac"] = rng.random()    # of the lane's length (see worker)
                 specs.append(spec)
             rng.shuffle(specs)
+            if rng.random() < 0.4:
+                # an allocation fails instead (MemoryError raised inside a library line): an
+                # ordinary Exception, so the library's own handlers see it; the call must raise
+                # or return what it returns otherwise, and nothing may be left behind
+                for spec in specs:
+                    if rng.random() < 0.8:
+                        spec["exc"] = "MemoryError"
             cop["interrupt"] = specs
             if rng.random() < 0.5:
                 # nothing of this operation runs before the cancelled call (cold caches, first
